@@ -192,9 +192,11 @@ def run(ctx):
                     pass  # the payload form is refused for the twin only: nothing to compare
         # ---- names, titles, subjects, abstracts through real directory listings -------
         for i, pl in enumerate(payloads[:ctx.n(30, 200)]):
-            nm = pl.replace("/", "_").replace("\0", "").replace("\r", " ").replace("\n", " ")
+            # (a file name may hold CR and LF like any other byte except '/' and NUL; a mail subject is one header line)
+            nm = pl.replace("/", "_").replace("\0", "")
             if not nm.strip() or nm in (".", "..") or ".." in nm or "./" in nm or nm.startswith(".") or "\\" in nm:
                 continue
+            subj = nm.replace("\r", " ").replace("\n", " ")
             for d, twin in (("n%d" % i, False), ("n%dt" % i, True)):
                 v = inert_twin(nm) if twin else nm
                 tree.write(f"{d}/a{v}.txt".encode("utf-8", "surrogateescape"), b"text\n")
@@ -209,7 +211,7 @@ def run(ctx):
                     tsrc = tsrc.replace("\r", rng.choice(["&#13;", "&#xD;"])).replace("\n", rng.choice(["&#10;", "&#xA;", "&NewLine;", "&#10"])).replace("\t", "&#9;")
                 tree.write(f"{d}/page.html", ("<html><head><title>%s</title></head></html>" % tsrc).encode("utf-8", "surrogateescape"))
                 tree.write(f"{d}/box.mbox", (b"From a@b Sat Jan  5 09:43:01 2002\nSubject: " +
-                                             (inert_twin(nm) if twin else nm).encode("utf-8", "surrogateescape") + b"\n\nbody\n\n"))
+                                             (inert_twin(subj) if twin else subj).encode("utf-8", "surrogateescape") + b"\n\nbody\n\n"))
             # the UMN handler shows extension-stripped file names; the plain directory handler shows HTML titles,
             # and an item's own '!' response shows the title under both
             for view, gplus, sel_s, cf, cfn in [(v, g, s_, cfg, "umn") for v, g in (("http", False), ("wap", False), ("gplusdir", True), ("gopher", False))
